@@ -1,6 +1,8 @@
 //! vcheck — runtime monitors, workload drivers and oracles for helgoboss-midi (see /verif/DESIGN.md).
 
 mod carriers;
+mod explore;
+mod scan;
 mod mon;
 mod props;
 mod report;
@@ -86,6 +88,18 @@ fn main() {
                     ),
                     _ => rep.count(&format!("monitor_hits_not_decided_here_{:?}", h.kind), 1),
                 }
+            }
+            // a check reports only violations of its own property; what the shared monitors saw
+            // for other properties is counted (those properties have their own check commands)
+            let own = format!("{}:", prop);
+            let foreign: u64 = rep.sig_counts.iter().filter(|(k, _)| !k.starts_with(&own)).map(|(_, v)| *v).sum();
+            if foreign > 0 {
+                rep.count("violations_of_other_properties_seen_by_shared_monitors", foreign);
+                let others: Vec<String> = rep.sig_counts.keys().filter(|k| !k.starts_with(&own)).cloned().collect();
+                rep.notes.insert("other_property_signatures".into(), json!(others));
+                rep.violations.retain(|v| v.sig.starts_with(&own));
+                rep.sig_counts.retain(|k, _| k.starts_with(&own));
+                rep.violations_total -= foreign;
             }
             let mut j = rep.to_json();
             let o = j.as_object_mut().unwrap();
